@@ -101,20 +101,22 @@ template <typename T> struct runner<T, 2>
     template <typename CB> static C mpi(std::vector<sz> const& calls, C const& c, CB cb) { return hep::mpi_multi_channel(MPI_COMM_WORLD, hep::make_multi_channel_integrand<T>(mf<T>(), 1, map(), 1, 2), calls, c, cb); }
 };
 
+static unsigned pow3(sz n) { unsigned p = 1; while (n--) p *= 3; return p; }
+
 template <typename T, int K>
 static void part_a(report& r)
 {
     using R = runner<T, K>;
     std::string const tn = vf::type_name<T>();
     for (sz len = 0; len <= (r.a().thorough() ? 5u : 4u); ++len)
-    for (unsigned pattern = 0; pattern != (1u << len); ++pattern)
+    for (unsigned pattern = 0; pattern != pow3(len); ++pattern)
     for (int start = 0; start != 2; ++start)
     for (sz stop_at = 0; stop_at <= len; ++stop_at)
     for (int world = 0; world <= 3; ++world)     // 0 = serial
     {
         if (world != 0 && (pattern % 3 != 0)) continue;      // MPI: a third of the calls patterns
         std::vector<sz> calls;
-        for (sz i = 0; i != len; ++i) calls.push_back((pattern >> i) & 1 ? 5 : 2);
+        { unsigned rest = pattern; for (sz i = 0; i != len; ++i) { unsigned const dgt = rest % 3; rest /= 3; calls.push_back(dgt == 0 ? 2 : dgt == 1 ? 5 : 0); } }   // calls from {2, 5, 0}
         std::string const id = tn + " A kind=" + std::to_string(K) + " calls=" + vf::join(calls) + " start=" + std::to_string(start) + " stop_at=" + std::to_string(stop_at)
             + " world=" + std::to_string(world);
         if (!r.want(id)) continue;
